@@ -52,6 +52,10 @@ Clauses(ev) ==
       [] ev.e = "reload" -> IF ev.rc # 0 THEN {"ReloadFails"} ELSE ReloadViol(ev.pre, ev.post)
       [] ev.e = "fault"  -> V(ev.load = 0, "StillLoads") \cup
                             (IF ev.load # 0 THEN {} ELSE V(ev.save = 0, "SaveReturns") \cup V(ev.reload = 0, "SavedFileLoads"))
+      [] ev.e = "trunc"  -> V(ev.rc \in {0, 1, 2, 3}, "DocumentedReturnCode")
+                            \cup V(ev.rc = 0 \/ (~ev.valid /\ ev.blocks = 0), "FailedLoadLeavesClearedModel")
+                            \cup V(ev.rc # 0 \/ (ev.valid /\ ev.blocks = ev.hdrBlocks), "LoadedModelHasItsBlocks")
+                            \cup V(ev.rc # 0 \/ ev.save = 0, "WhatWasLoadedCanBeSaved")
       [] ev.e = "crash"  -> {"NoCrash"}
       [] OTHER           -> {}
 
